@@ -401,35 +401,7 @@ func checkCanonicalParse(p *Program, r *Result, parse, rs, ivs, dec *ssa.Functio
 			}
 		}
 		if !okEmpty {
-			// the same as one expression: `len(s) > 0 && ...`: every way to a result other than
-			// the constant false stands under len(s) >= 1
-			okEmpty = len(returnsOf(ivs)) > 0
-			for _, ret := range returnsOf(ivs) {
-				nonEmptyOrFalse := func(v ssa.Value, facts []Atom) bool {
-					if c, isC := v.(*ssa.Const); isC && c.Value != nil && c.Value.ExactString() == "false" {
-						return true
-					}
-					_, ok := hasFact(facts, "len(P1) >= 1")
-					_, ok2 := hasFact(facts, "len(P1) != 0")
-					return ok || ok2
-				}
-				if ph, isPhi := ret.Results[0].(*ssa.Phi); isPhi && ph.Block() == ret.Block() {
-					for i, e := range ph.Edges {
-						pr := ph.Block().Preds[i]
-						facts := itb.FactsAt(pr)
-						for k, sc := range pr.Succs {
-							if sc == ph.Block() {
-								if _, isIf := pr.Instrs[len(pr.Instrs)-1].(*ssa.If); isIf {
-									facts = itb.FactsOnEdge(pr, k)
-								}
-							}
-						}
-						okEmpty = okEmpty && nonEmptyOrFalse(e, facts)
-					}
-				} else {
-					okEmpty = okEmpty && nonEmptyOrFalse(ret.Results[0], itb.FactsAt(ret.Block()))
-				}
-			}
+			okEmpty = emptyRejectedInExpression(itb, ivs)
 		}
 		r.Check(okEmpty, ivs.String(), "empty", "", "empty string is invalid", "the empty string is accepted as an argument")
 		okRange := false
@@ -736,4 +708,42 @@ func checkNoLineDiscarded(p *Program, r *Result) {
 	if n == 0 {
 		r.OK(pkgFormat, "line-read:none-in-loop", "", "no line read inside a loop of the format package")
 	}
+}
+
+// emptyRejectedInExpression: the predicate written as one expression (`len(s) > 0 && ...`,
+// `s != "" && ...`): every way to a result other than the constant false stands under a fact
+// that its string parameter is not empty.
+func emptyRejectedInExpression(itb *TB, fn *ssa.Function) bool {
+	rets := returnsOf(fn)
+	ok := len(rets) > 0
+	nonEmptyOrFalse := func(v ssa.Value, facts []Atom) bool {
+		if c, isC := v.(*ssa.Const); isC && c.Value != nil && c.Value.ExactString() == "false" {
+			return true
+		}
+		for _, want := range []string{"len(P1) >= 1", "len(P1) != 0", `P1 != ""`} {
+			if _, has := hasFact(facts, want); has {
+				return true
+			}
+		}
+		return false
+	}
+	for _, ret := range rets {
+		if ph, isPhi := ret.Results[0].(*ssa.Phi); isPhi && ph.Block() == ret.Block() {
+			for i, e := range ph.Edges {
+				pr := ph.Block().Preds[i]
+				facts := itb.FactsAt(pr)
+				for k, sc := range pr.Succs {
+					if sc == ph.Block() {
+						if _, isIf := pr.Instrs[len(pr.Instrs)-1].(*ssa.If); isIf {
+							facts = itb.FactsOnEdge(pr, k)
+						}
+					}
+				}
+				ok = ok && nonEmptyOrFalse(e, facts)
+			}
+		} else {
+			ok = ok && nonEmptyOrFalse(ret.Results[0], itb.FactsAt(ret.Block()))
+		}
+	}
+	return ok
 }
